@@ -164,8 +164,8 @@ def coq_res(o, f):
 ALPHA_PLAIN = "abcxyz XY09.,-_[];m{}%"      # incl. characters that mean something to str.format / %-formatting
 ALPHA_CTRL = "\n\t\r\x00\x07"
 ALPHA_WIDE = "Ｅ中한"
-ALPHA_COMB = "̀́"
-ALPHA_OTHER = "é☃\U0001f600﻿"
+ALPHA_COMB = "̀́\ufe0f\u200d\ufe0e"      # combining marks, variation selectors, zero-width joiner
+ALPHA_OTHER = "é☃\U0001f600﻿\udc80\ud800"      # incl. lone surrogates (what surrogateescape-decoded file names contain)
 
 
 def rand_text(rng, maxlen=6, alphabet=None):
